@@ -20,10 +20,10 @@ FIXTURE_TWO = os.path.join(VERIF, 'fixtures', 'two_mds.xml')
 # abstract handle -> concrete handle in fixtures/one_mds.xml (copy of tests/mdib_tns.xml)
 MAP_D = {'vmd': 'vmd0', 'ch': 'ch0.vmd0', 'm1': 'numeric.ch0.vmd0', 'dA': 'dynA', 'dB': 'dynB',
          'pc': 'PC.mds0', 'lc': 'LC.mds0', 'al': 'ac0.vmd0.mds0', 'op': 'DN_SET', 'rt': 'rtsa.ch0.vmd0',
-         'm2': 'string.ch0.vmd0'}
+         'm2': 'string.ch0.vmd0', 'asy': 'asy.vmd0', 'sco': 'sco.vmd0'}
 MAP_C = {'c1': 'ctx1', 'c2': 'ctx2', 'c3': 'ctx3', 'l1': 'loc1', 'l2': 'loc2'}
 KIND = {'vmd': 'comp', 'ch': 'comp', 'dA': 'comp', 'm1': 'metric', 'dB': 'metric', 'm2': 'metric', 'pc': 'ctx',
-        'lc': 'ctx', 'al': 'alert', 'op': 'op', 'rt': 'rt'}
+        'lc': 'ctx', 'al': 'alert', 'op': 'op', 'rt': 'rt', 'asy': 'alert', 'sco': 'comp'}
 
 VERSION_FIELDS = {'StateVersion', 'DescriptorVersion', 'Handle', 'DescriptorHandle', 'BindingMdibVersion',
                   'UnbindingMdibVersion', 'ContextAssociation', 'BindingStartTime', 'BindingEndTime'}
@@ -244,11 +244,24 @@ def apply_tok(obj, t: int, nested_only: bool = False):
         obj.ActualPriority = [pm_types.AlertConditionPriority.LOW, pm_types.AlertConditionPriority.HIGH][t % 2]
     elif name == 'AlertSystemStateContainer':
         obj.SelfCheckCount = 10 + t
+        # list valued ATTRIBUTES are changed in place (append), like an application may do it
+        lst = obj.PresentPhysiologicalAlarmConditions
+        if len(lst) > 2:
+            del lst[:-1]
+        lst.append(f'cond{t}')
+        obj.PresentTechnicalAlarmConditions.append(f'tech{t}')
+        if len(obj.PresentTechnicalAlarmConditions) > 3:
+            del obj.PresentTechnicalAlarmConditions[:-1]
     elif name == 'AlertSignalStateContainer':
         obj.Slot = t
     elif name.endswith('OperationStateContainer'):
         obj.OperatingMode = [pm_types.OperatingMode.DISABLED, pm_types.OperatingMode.ENABLED][t % 2]
-    elif name in ('VmdStateContainer', 'ChannelStateContainer', 'MdsStateContainer', 'ScoStateContainer',
+    elif name == 'ScoStateContainer':
+        obj.OperatingHours = 100 + t
+        obj.InvocationRequested.append(f'op{t}')
+        if len(obj.InvocationRequested) > 3:
+            del obj.InvocationRequested[:-1]
+    elif name in ('VmdStateContainer', 'ChannelStateContainer', 'MdsStateContainer',
                   'SystemContextStateContainer', 'ClockStateContainer', 'BatteryStateContainer'):
         obj.OperatingHours = 100 + t
         if obj.CalibrationInfo is None:
